@@ -80,7 +80,11 @@ func (c *c16CustomCtx) Err() error {
 		return e.(error)
 	}
 	if c.armed.CompareAndSwap(true, false) {
-		defer c.cancel()
+		if c.idx%2 == 0 {
+			c.cancel() // the cancellation lands just before the answer is computed …
+			return c.err.Load().(error)
+		}
+		defer c.cancel() // … or just after a nil answer
 	}
 	return nil
 }
